@@ -69,6 +69,12 @@ def configs(tier, seed=0):
     # callable parameter conditioned later
     for form in ['cov', 'prec', 'sqrtcov', 'sqrtprec']:
         out.append({'key': 'gauss-cond/%s' % form, 'kind': 'gausscond', 'form': form, 'dim': 2})
+    # the dense/sparse storage switch must not change the distribution (whatever convention the form follows)
+    for form in ['cov', 'prec', 'sqrtcov', 'sqrtprec']:
+        for d in [2, 3]:
+            for pk in (['dense'] if form in ('cov', 'prec') else ['dense', 'upper', 'lower']):
+                out.append({'key': 'gauss-switch/%s/d%d/%s' % (form, d, pk), 'kind': 'switch', 'family': 'Gaussian', 'form': form, 'dim': d, 'param': pk,
+                            'idx': 1, 'mean': 'vector', 'box': True})
     # same (mu, Sigma) through all four forms
     for d in [2, 3]:
         out.append({'key': 'gauss-forms-agree/d%d' % d, 'kind': 'forms', 'dim': d, 'box': True})
@@ -128,6 +134,14 @@ def run(cfg, c):
             for i in range(d):
                 pref = pref * (1 / (S[i] * math.sqrt(2 * math.pi)) * cm.sexp(-0.5 * ((x[i] - M[i]) / S[i]) ** 2))
             c.prove_close('pdf', f.dist.pdf(x), pref, tol=1e-9, info=fk(cfg, 'pdf'))
+        return
+    if kind == 'switch':
+        x = cm.points(c, 'x', cfg['dim'], B=cm.BOX)
+        f_dense = cm.build(c, dict(cfg, sparse=False))
+        f_sparse = cm.build(c, dict(cfg, sparse=True))
+        for v in f_dense.params.values():
+            cm.boxed(c, v, cm.BOX)
+        c.prove_close('same logpdf below and above the sparse-storage threshold', f_dense.dist.logpdf(x), f_sparse.dist.logpdf(x), tol=1e-8, info=fk(cfg, 'switch'))
         return
     if kind == 'mhn':
         f = cm.build(c, cfg)
